@@ -24,7 +24,7 @@ for l in tpl:
 open(W + "/sgvac.vx", "w").write("\n".join(out))
 r = subprocess.run(["/verif/vx/target/release/vx", "/repo", W + "/sgvac.vx", W + "/sgvac.rs", W + "/sgvac.log.json"], capture_output=True, text=True)
 if r.returncode: print(r.stdout, r.stderr); sys.exit(2)
-r = subprocess.run(["timeout", "900", "verus", W + "/sgvac.rs", "--rlimit", "100", "--triggers-mode", "silent"], capture_output=True, text=True)
+r = subprocess.run(["timeout", "900", "verus", W + "/sgvac.rs", "--rlimit", os.environ.get("SG_RLIMIT", "20"), "--triggers-mode", "silent"], capture_output=True, text=True)
 o = r.stdout + r.stderr
 src = open(W + "/sgvac.rs").read().split("\n")
 probe_lines = {i + 1 for i, l in enumerate(src) if "VACUITY-PROBE" in l}
